@@ -175,6 +175,10 @@ def step (st : St) (line : String) : St × String :=
   let bad := (st, "bad-op")
   match words line with
   | "#" :: _ => (init, "#")
+  -- command-line tier (`sourmash search` / `sourmash prefetch` through the real entry point): not modelled;
+  -- the property oracle decides on the implementation's observation alone
+  | "clisearch" :: _ => (st, "skip")
+  | "cliprefetch" :: _ => (st, "skip")
   | "sk" :: i :: num :: scaled :: track :: name :: hs =>
     match nats? [i, num, scaled], bool? track with
     | some [i, num, scaled], some tr =>
